@@ -324,8 +324,32 @@ fn send_best_move_to_gui(board: &BoardState) {
 }
 
 pub fn send_to_gui(message: &str) {
+    #[cfg(feature = "verif")]
+    if crate::verif_hooks::capture(message) {
+        return;
+    }
     println!("{}", message);
     info!("ENGINE >> {}", message);
+}
+
+// Verification only: public entry points to the private position/go parsing functions
+#[cfg(feature = "verif")]
+pub fn verif_play_out_position(
+    commands: &[&str],
+    zobrist_hasher: &ZobristHasher,
+    draw_table: &mut DrawTable,
+) -> BoardState {
+    play_out_position(commands, zobrist_hasher, draw_table)
+}
+
+#[cfg(feature = "verif")]
+pub fn verif_make_move(board: &mut BoardState, player_move: &str, zobrist_hasher: &ZobristHasher) {
+    make_move(board, player_move, zobrist_hasher)
+}
+
+#[cfg(feature = "verif")]
+pub fn verif_parse_go_command(commands: &[&str]) -> GameTime {
+    parse_go_command(commands)
 }
 
 pub fn read_from_gui() -> String {
